@@ -2,6 +2,7 @@ SPECIFICATION Spec
 CONSTANTS
   Escape = FALSE
   MaxLen = 3
+  Alias = FALSE
   Alphabet = {"a", "b", "dot"}
 INVARIANT Isolation
 CHECK_DEADLOCK FALSE
